@@ -576,7 +576,10 @@ impl<K: El, V: El> Mon<K, V> {
                     // a clone / clone_from whose product cannot take insertions the source can
                     // take is not an equal, independent map either
                     let more: &'static [&'static str] = if matches!(op.code, Code::CloneSwap | Code::CloneFrom) { &["C11"] } else { &[] };
-                    return Err(Viol {
+                    // when another property is under check the history goes on: what that
+                    // property promises may fail as a consequence (a panic, a crash, a hang)
+                    let fatal = self.focus.is_empty() || self.focus == "C04" || more.contains(&self.focus);
+                    let v = Viol {
                         extra: Vec::new(),
                         prop: "C04",
                         more,
@@ -590,7 +593,15 @@ impl<K: El, V: El> Mon<K, V> {
                             (l + r - 1) / r,
                             need
                         ),
-                    });
+                    };
+                    if fatal {
+                        return Err(v);
+                    }
+                    let e = self.stats.also.entry("C04").or_insert((0, String::new()));
+                    e.0 += 1;
+                    if e.1.is_empty() {
+                        e.1 = v.msg;
+                    }
                 }
             }
         }
